@@ -51,7 +51,7 @@ META = {
     ),
     "C12": dict(
         category="exploration",
-        text="Seeded operation-and-corruption histories on one data directory in the simulated file system (CORRUPT with 24 stored-data fault kinds incl. changed frame counts, REPAIR, REMOVE, STRAY files, VALIDATE, VALIDATE(fix=k), INFO none/strict/fix through the command, READ with sos/eos and write_hyp round trip), with directory listings permuted by the seed and, in half of the scenarios, one long-lived data set object over the whole history, judged after every step against an in-memory reference model: strict validation raises iff the documented conditions fail; fix=k succeeds iff only documented repairs are needed, writes exactly those repairs, is sticky and idempotent, and on failure leaves each file old or documented-repaired; the info report equals the recount; sos/eos surround every transcript including empty ones and write_hyp strips them.",
+        text="Seeded operation-and-corruption histories on one data directory in the simulated file system (CORRUPT with 26 stored-data fault kinds incl. changed frame counts and two defects in one token, REPAIR, REMOVE, STRAY files, VALIDATE, VALIDATE(fix=k), INFO none/strict/fix through the command, READ with sos/eos and write_hyp round trip), with directory listings permuted by the seed and, in half of the scenarios, one long-lived data set object over the whole history, judged after every step against an in-memory reference model: strict validation raises iff the documented conditions fail; fix=k succeeds iff only documented repairs are needed, writes exactly those repairs, is sticky and idempotent, and on failure leaves each file old or documented-repaired; the info report equals the recount; sos/eos surround every transcript including empty ones and write_hyp strips them.",
         design="DESIGN.md section 4 (C12)",
         note="Trusted: the reference model in props/c12.py (judge / recount, transcribed from the validate_spect_data_set and command docstrings); SimFS; no CUDA tensors; int8/int16 not injected; rcount of classes with empty known segments not judged (documentation ambiguous).",
         technique="deterministic simulation: stored-data fault injection and operation histories on a simulated directory against an executable reference model",
